@@ -31,7 +31,7 @@ CHECKS = {
              "the schema interpreter of the reference model: decode(encode(v)) == v[transient := default], the emitted bytes "
              "are what the interpreter prescribes for that declaration, and the interpreter decodes them to the same value; "
              "distinct = distinct (declaration, encoding) pairs",
-        floors={"any": {"programs": 200, "disagreements_checked": 5000}},
+        floors={"any": {"deep_nesting_ok": 2, "programs": 200, "disagreements_checked": 5000}},
         assumptions=["the reference model (refmodel crate) is trusted; it is cross-checked against the evolution table in C03 and pinned by the Scala golden file in C04"],
     ),
     "C03": dict(
@@ -84,7 +84,7 @@ CHECKS = {
         quick=NATIVE,
         thorough=NATIVE + [("fresh", 0.3, {"only": "fresh"})],
         rule="same hostile inputs as C05 (exhaustive <= 2 bytes, annotated-parse tampering, random); a case is non-trivial when the library accepted the input (only those can refute the property); distinct by (type, input); floor: accepted-and-agreed inputs in every tamper class",
-        floors={"any": {"accepted_and_agreed": 1000, "accepted_and_agreed:rewrite_chunk_size": 100, "accepted_and_agreed:rewrite_count": 100,
+        floors={"any": {"tolerant:other_chunks_as_the_format_assigns": 1000, "accepted_and_agreed": 1000, "accepted_and_agreed:rewrite_chunk_size": 100, "accepted_and_agreed:rewrite_count": 100,
                         "accepted_and_agreed:rewrite_length": 100, "accepted_and_agreed:rewrite_tag": 100, "accepted_and_agreed:rewrite_position": 20,
                         "accepted_and_agreed:rewrite_version": 100, "accepted_and_agreed:rewrite_ctor": 100, "accepted_and_agreed:chunk_surgery": 100,
                         "accepted_and_agreed:splice": 100, "accepted_and_agreed:bitflip": 100, "accepted_and_agreed:overwrite": 100}},
@@ -178,7 +178,7 @@ CHECKS = {
         level="exploration",
         quick=NATIVE, thorough=NATIVE + [("fresh", 1.0, {"only": "fresh"})],
         rule="cases: (type, value) across 5 sinks + size calculator; (buffer, read sequence) across 3 inputs; distinct by (type, bytes) / (buffer, ops)",
-        floors={"any": {"all_sinks_agree_and_size_exact": 10000, "input_sequences_agree": 10000, "big_values_ok": 50}},
+        floors={"any": {"totals_beyond_2_pow_32_exact": 7, "all_sinks_agree_and_size_exact": 10000, "input_sequences_agree": 10000, "big_values_ok": 50}},
     ),
     "C16": dict(
         claim="Fault enumeration on compressed frames: contents (zero, random, periodic, text, mixed) x sizes 0 .. 1 MiB (16 MiB thorough) x levels 0-9 x both sinks x all three sources with trailing data: frame == varint(len d) ++ varint(len z) ++ z with z inflating to d (checked with an independent inflate), following bytes intact; every truncation of frames <= 4 KiB is an error; every single-bit flip of small frames, random flips of large ones and header rewrites give Ok or Err, no panic, and no single allocation request above max(64 KiB, 2 x bytes actually produced) (allocation monitor). Frames are also written by a user codec through SerializationContext (straight to the sink, into a chunk buffer, through a size-calculating context) and read back from inside input regions; every bit of the first four bytes of each deflate stream is flipped.",
